@@ -47,6 +47,7 @@ def run(ctx):
     rule_accept(ctx, F)
     rule_panic(ctx, F)
     rule_once(ctx, F)
+    rule_queue(ctx, F)
     rule_recv(ctx, F)
     rule_hint(ctx, F)
     rule_idle(ctx, F)
@@ -436,6 +437,45 @@ def rule_once(ctx, F):
                 ok = True
         ctx.ob(R, p, "a service error becomes an error response (not silence)", ok,
                "process_response_stream_item does not turn Err(ServiceError) into Some(mk_error_response(..))")
+
+
+def rule_queue(ctx, F):
+    """The stream connection's do_enqueue_response hands a response to the write queue with try_send.  The only exits without
+    the response in the queue may be `the connection is shutting down` (Closed); on Full the response has to be kept and
+    tried again (as the InTransaction arm does), not logged and dropped."""
+    R = "C16.once"
+    bs = [b for p, b in F.bodies.items() if re.match(r"^net::server::connection::ServiceResponseHandler::<.*>::do_enqueue_response::\{closure#0\}$", p)]
+    if not ctx.anchor(R, "connection::ServiceResponseHandler::do_enqueue_response", len(bs) == 1):
+        return
+    b = bs[0]
+    bf = BranchFacts(b, F)
+    full = []
+    import json as _json
+    for sw in sorted(b.reachable_blocks()):
+        if b.blocks[sw]["t"]["k"] != "switch":
+            continue
+        for lab, (tm, v) in bf.edge_facts(sw).items():
+            if isinstance(v, tuple) and v == ("variant", "Full"):
+                full.append(b.edge_target(sw, lab))
+    if not full:
+        # the variants of the foreign enum are not named in the facts: the arm is the one that takes the payload `as Full`
+        for bi in sorted(b.reachable_blocks()):
+            if b.blocks[bi].get("c"):
+                continue
+            if any('"as", "Full"' in _json.dumps(st) for st in b.blocks[bi]["s"]):
+                full.append(bi)
+    sends = [bb for bb, tt in b.calls() if re.search(r"mpsc::(bounded::)?Sender::<.*>::(try_send|send)$", tt["fn"] or "")]
+    if not ctx.anchor(R, "try_send and its Full arm in do_enqueue_response", bool(full) and bool(sends), b.where()):
+        return
+    rets = set(b.return_blocks())
+    leak = []
+    for f in full:
+        r = b.reach_from(f, removed_blocks=set(sends))
+        leak += [x for x in rets if x in r]
+    ctx.ob(R, b, "a response that finds the write queue full is kept and offered again", not leak,
+           "do_enqueue_response leaves through the `queue is full` arm without the response having been queued (it is logged and "
+           "dropped unless the handler is in a transaction): of 40 requests pipelined in one segment only the first 10 to 35 are "
+           "answered", b.where(full[0]))
 
 
 def rule_recv(ctx, F):
